@@ -156,6 +156,10 @@ def r2_dominance(ctx):
 
 
 def r3_option_siblings(ctx):
+    # options and the operands of a condition are brought to the node's unit by NumberType.convert before they are
+    # compared: a cell of its table that relabels without converting (0 Cel taken as 0 K) makes parse() accept values
+    # outside the declared set (shared with C14.R2)
+    C14.conversion_table(ctx)
     fn = ctx.fn(SEL, "SelectNode.set_option")
     chain = [s for s in fn.body if isinstance(s, ast.If) and norm(s.test) == "self.keyword == 'int'"]
     if len(chain) != 1 or len(chain[0].orelse) != 1 or not isinstance(chain[0].orelse[0], ast.If) or norm(chain[0].orelse[0].test) != "self.keyword == 'float'":
